@@ -2,7 +2,10 @@ package node
 
 import (
 	"bytes"
+	"fmt"
 	"strings"
+
+	"github.com/freeconf/yang/fc"
 )
 
 type PathMatcher interface {
@@ -31,9 +34,18 @@ type PathMatchExpression struct {
 //	['aaa', 'bbb', 'ccc']
 type segments []string
 
+var pathExpressionErr = fmt.Errorf("%w. unbalanced parentheses in path expression", fc.BadRequestError)
+
 func ParsePathExpression(selector string) (*PathMatchExpression, error) {
 	pe := &PathMatchExpression{}
-	pe.parsex(&lex{selector: selector})
+	closed, err := pe.parsex(&lex{selector: selector})
+	if err != nil {
+		return nil, err
+	}
+	if closed {
+		// ')' without '('
+		return nil, pathExpressionErr
+	}
 	return pe, nil
 }
 
@@ -62,7 +74,8 @@ func (l *lex) done() bool {
 	return l.pos >= len(l.selector)
 }
 
-func (e *PathMatchExpression) parsex(l *lex) {
+// parsex returns true when it stopped at a closing parenthesis
+func (e *PathMatchExpression) parsex(l *lex) (bool, error) {
 	s := e
 	var split *PathMatchExpression
 	for !l.done() {
@@ -70,7 +83,14 @@ func (e *PathMatchExpression) parsex(l *lex) {
 		switch t {
 		case "(":
 			nested := &PathMatchExpression{}
-			nested.parsex(l)
+			closed, err := nested.parsex(l)
+			if err != nil {
+				return false, err
+			}
+			if !closed {
+				// '(' without ')'
+				return false, pathExpressionErr
+			}
 			s.expandPaths(nested)
 		case ";":
 			if split != nil {
@@ -82,7 +102,7 @@ func (e *PathMatchExpression) parsex(l *lex) {
 			if split != nil {
 				e.appendPaths(s)
 			}
-			return
+			return true, nil
 		case "/":
 			// ignore natural delimitor already used in lexer
 		default:
@@ -92,6 +112,7 @@ func (e *PathMatchExpression) parsex(l *lex) {
 	if split != nil {
 		e.appendPaths(s)
 	}
+	return false, nil
 }
 
 // expandPaths incoming paths into current paths
